@@ -90,7 +90,8 @@ def _r1_subtile(run, ev):
     if ok:
         c0 = [c for c in rets[0][0] if c[0] != "loop"]
         ok = any(c == (sym.cmp("Eq", ("attr", d, "n"), ("attr", s, "n")), True) for c in c0)
-    raises = [e for e in r.events if e.kind == "raise"]
+    own = {id(n) for n in own_nodes(f.node)}
+    raises = [e for e in r.events if e.kind == "raise" and id(e.node) in own]
     ok = ok and len(raises) == 1 and [c for c in raises[0].pc if c[0] != "loop"] == [(("op", "cmp:Lt", (("attr", d, "n"), ("attr", s, "n"))), True)]
     if ok:
         run.holds("C13.R1", f, None, "is_subtile: equal depth -> same x and y; deeper -> is_subtile(parent(deeper), shallower); shallower -> error")
